@@ -12,8 +12,8 @@ columns `1..rank` with the row expansion `ggsw_expand_row` (`Core.expandRow`, Mo
 C04) and the GGLWE→GGSW tensor key.  A GGSW is the list of its column-0 cells (one `Ct` per row) on the way in
 and the list of all its cells in (row, column) order on the way out.
 
-As in the Rust, `ggsw_keyswitch` loops over `a.dnum()` rows although its entry assertion only requires
-`res.dnum() <= a.dnum()`: a shorter result makes `res.at_mut(row, 0)` panic (modelled as it is).
+`ggsw_keyswitch` loops over `res.dnum()` rows (since poulpy 95a5a90; before, it looped over `a.dnum()` and
+panicked for `res.dnum() < a.dnum()` although its entry assertion admits it — found by this slice).
 -/
 
 namespace Ks
@@ -32,12 +32,11 @@ def ggswKeyswitch (big128 : Bool) (n resBase2k resSize resDnum resDsize : Nat) (
   else if resDsize ≠ aDsize then .panic "assert"
   else if resBase2k ≠ aBase2k then .panic "assert"
   else
-    -- for row in 0..a.dnum() { glwe_keyswitch(res.at_mut(row, 0), a.at(row, 0), key) }: `at_mut` asserts row < res.dnum
-    obind (oall ((List.range aCol0.length).map (fun row =>
-      if row ≥ resDnum then Outcome.panic "assert"
-      else match aCol0[row]? with
-        | none => Outcome.panic "bounds"
-        | some x => keyswitch big128 resBase2k resSize key.rankOut x key))) fun col0 =>
+    -- for row in 0..res.dnum() { glwe_keyswitch(res.at_mut(row, 0), a.at(row, 0), key) }   (poulpy 95a5a90)
+    obind (oall ((List.range resDnum).map (fun row =>
+      match aCol0[row]? with
+      | none => Outcome.panic "bounds"
+      | some x => keyswitch big128 resBase2k resSize key.rankOut x key))) fun col0 =>
     expandRows big128 n resBase2k resSize col0 t
 
 /-- **`ggsw_keyswitch_assign(res, key, tsk)`** -/
